@@ -27,7 +27,8 @@ type c17Case struct {
 	F c17Fault   `json:"fault"`
 }
 
-var c17Whats = []string{"noniterable", "nofunction", "nofilter", "notest", "missing-template", "unknown-macro", "broken-include", "parent-outside"}
+var c17Whats = []string{"noniterable", "nofunction", "nofilter", "notest", "missing-template", "unknown-macro", "broken-include", "parent-outside",
+	"err-in-cond-branch", "err-in-args", "err-in-literal", "err-in-interp", "err-in-set", "err-in-if", "err-in-for-seq", "err-in-include-name", "err-in-with", "err-in-operand"}
 
 func c17Construct(what string) []*m.N {
 	switch what {
@@ -47,6 +48,26 @@ func c17Construct(what string) []*m.N {
 		return []*m.N{{K: "include", X: m.EStr("fbroken")}}
 	case "parent-outside":
 		return []*m.N{m.NPrint(&m.E{K: "parent"})}
+	case "err-in-cond-branch":
+		return []*m.N{m.NPrint(m.ECond(m.EBool(true), m.ECall("nosuchfunction"), m.ENum(1))), m.NPrint(m.ECond(m.EBool(false), m.ENum(1), m.ECall("nosuchfunction")))}
+	case "err-in-args":
+		return []*m.N{m.NPrint(m.EFilter("wrap", m.ENum(1), m.ECall("cat", m.ENum(2), m.ECall("nosuchfunction"))))}
+	case "err-in-literal":
+		return []*m.N{m.NPrint(m.ECall("cat", m.EArr(m.ENum(1), m.ECall("nosuchfunction")), &m.E{K: "hash", KS: []*m.E{m.EName("k")}, A: []*m.E{m.ENum(1)}}))}
+	case "err-in-interp":
+		return []*m.N{m.NPrint(&m.E{K: "interp", A: []*m.E{m.EStr("a"), m.ECall("nosuchfunction"), m.EStr("b")}})}
+	case "err-in-set":
+		return []*m.N{{K: "set", S: "zzv", X: m.EBin("~", m.EStr("a"), m.ECall("nosuchfunction"))}}
+	case "err-in-if":
+		return []*m.N{{K: "if", X: m.EUn("not", m.ECall("nosuchfunction")), Body: []*m.N{m.NText("never")}}}
+	case "err-in-for-seq":
+		return []*m.N{{K: "for", S: "zz", X: m.ECall("nosuchfunction"), Body: []*m.N{m.NText("never")}}}
+	case "err-in-include-name":
+		return []*m.N{{K: "include", X: m.EBin("~", m.EStr("flib"), m.ECall("nosuchfunction"))}}
+	case "err-in-with":
+		return []*m.N{{K: "include", X: m.EStr("flib"), Y: &m.E{K: "hash", KS: []*m.E{m.EName("k")}, A: []*m.E{m.ECall("nosuchfunction")}}}}
+	case "err-in-operand":
+		return []*m.N{m.NPrint(m.EBin("+", m.ENum(1), m.EBin("*", m.ENum(2), m.EUn("-", m.ECall("nosuchfunction")))))}
 	case "marker":
 		return []*m.N{{K: "do", X: m.ECall("id", m.EStr("@@"))}}
 	}
@@ -274,7 +295,7 @@ func init() {
 
 	cfg := gen.Cfg{ExprDepth: 2, BodyLen: 3, Nest: 3, Calls: true, If: true, For: true, Set: true, SetCap: true, FilterSec: true, Macros: true, Blocks: true}
 	p.Run = func(c *Ctx) {
-		nP := c.Share(c.Pick(1000, 60000))
+		nP := c.Share(c.Pick(700, 60000))
 		complete := true
 		for i := 0; i < nP; i++ {
 			if sub.Failed(c) || c.Expired() {
@@ -315,7 +336,7 @@ func init() {
 			for pos := 0; pos < npos; pos++ {
 				for wi, what := range c17Whats {
 					// quick: a rotating subset of constructs per position
-					if c.Quick() && (pos+wi+i)%3 != 0 {
+					if c.Quick() && (pos+wi+i)%6 != 0 {
 						continue
 					}
 					sub.Check(c, &c17Case{P: prog, F: c17Fault{Kind: "rt", Pos: pos, What: what}})
